@@ -7,6 +7,7 @@ import (
 	"go/types"
 	"reflect"
 	"sort"
+	"strings"
 
 	"golang.org/x/tools/go/ast/astutil"
 
@@ -59,8 +60,27 @@ func (p *Program) InlineNewHelpers(baseline *Baseline) {
 		in := &inliner{prog: p, pkg: pkg, info: pkg.TypesInfo, cands: map[*types.Func]*ast.FuncDecl{}, remaining: map[*types.Func]int{}, hasDefer: map[*types.Func]bool{}, closureFn: map[*types.Var]*types.Func{}}
 		in.known = func(q string, e ast.Expr) bool { return baseline.Locals[q][exprKey(pkg.TypesInfo, e)] }
 		in.norm = &normaliser{p: p, pkg: pkg, info: pkg.TypesInfo, pure: map[*types.Func]int{}, in: in}
+		// a function that took the place of a method of the inventory (method turned into a function
+		// with the receiver as a parameter) is that method under another spelling, not an extracted helper
+		stoodIn := map[*ast.FuncDecl]bool{}
+		for q := range baseline.Decls["func"] {
+			if !strings.HasPrefix(q, pkg.PkgPath+".") {
+				continue
+			}
+			name := q[len(pkg.PkgPath)+1:]
+			if !strings.Contains(name, ".") || p.Func(pkg.PkgPath, name) != nil {
+				continue
+			}
+			if fd := p.methodAlias(pkg.PkgPath, name); fd != nil {
+				stoodIn[fd] = true
+				if p.standIn == nil {
+					p.standIn = map[*ast.FuncDecl]string{}
+				}
+				p.standIn[fd] = name
+			}
+		}
 		for _, fd := range p.AllFuncDeclsRaw(pkg) {
-			if baseline.HasFunc(pkg.PkgPath + "." + FuncName(fd)) {
+			if baseline.HasFunc(pkg.PkgPath+"."+FuncName(fd)) || stoodIn[fd] {
 				continue
 			}
 			obj, _ := in.info.Defs[fd.Name].(*types.Func)
